@@ -39,6 +39,10 @@ def jobs(tier):
     J.append(conc("2,0,0,0", hmap=4, init=2, prog0=prog((K_RESIZE, 8)), prog1=prog((K_DELN, 0)), prog2=prog((K_REPLN, 0)), **base))
     J.append(conc("2,0,0,0" if q else "3,0,0,0", hmap=2, init=2, prog0=prog((K_RESIZE, 4), (K_RESIZE, 1)), prog1=prog((K_DELN, 0), (K_ADD, 0)),
                   final_destroy=1, **base))
+    # partitioned shrink with pthread_create failing for a helper: the leftover buckets must still be unlinked before the level is freed
+    for init in (4, 8):
+        J.append(conc("1,0,1,0", workers=16, hmap=1, init=init, min_partition_order=0, pthread_create_eagain=1, prog0=prog((K_RESIZE, 1)),
+                      prog1=prog((K_LOOKUP, 1), (K_WALKALL, 0)), final_destroy=1, **base))
     # destroy after concurrent activity (auto-resize table: teardown goes through the worker)
     J.append(conc("2,0,0,0", flags=1, hmap=1, ninit=3, init_keys=0x210, prog0=prog((K_ADD, 3)), prog1=prog((K_DELN, 0)), final_destroy=1))
     for b, env in REAL:
